@@ -839,7 +839,7 @@ func (c *fn) declStmt(s *ast.DeclStmt, k kont) string {
 			}
 			return c.bind(val, "d", func(v string) string {
 				delete(c.views, o)
-				return "let " + c.nameOf(o) + " := " + v + " in " + recN(j+1)
+				return c.letVar(o, v) + recN(j+1)
 			})
 		}
 		return recN(0)
@@ -1077,7 +1077,7 @@ func (c *fn) store(lhs ast.Expr, f func(old cx) cx, k kont) string {
 		nv := f(old)
 		return c.bind(nv, "r", func(v string) string {
 			delete(c.views, o)
-			return "let " + c.nameOf(o) + " := " + v + " in " + k()
+			return c.letVar(o, v) + k()
 		})
 	case *ast.SelectorExpr:
 		sel, ok := c.info.Selections[l]
@@ -1140,6 +1140,15 @@ func (c *fn) store(lhs ast.Expr, f func(old cx) cx, k kont) string {
 	}
 	c.fail(lhs, "assignment to %T is not supported", lhs)
 	return ""
+}
+
+// letVar binds a Go variable; a value whose type Coq could not infer on its
+// own (an empty list, nil) is annotated.
+func (c *fn) letVar(o types.Object, v string) string {
+	if v == "[]" || v == "None" || v == "PNil" {
+		return "let " + c.nameOf(o) + " : " + c.varType(o) + " := " + v + " in "
+	}
+	return "let " + c.nameOf(o) + " := " + v + " in "
 }
 
 // nameOfIfBound is the current Coq name of a variable (used as old value).
